@@ -81,7 +81,7 @@ manifest = {
         "add_only": True,
     },
     "engines": [
-        {"name": "tla-monitors", "path": "/verif/spec/mon", "serves_properties": sorted(CLAIMED), "kind_free_text": "TLA+ specifications (Engine, ClientLifecycle, Backoff, Codec, DecoderFraming) and property monitors (pure Apply operators) evaluated by TLC over ndjson traces of the real code, and composed with the implementation-shaped specifications in model checking"},
+        {"name": "tla-monitors", "path": "/verif/spec/mon", "serves_properties": sorted(CLAIMED), "kind_free_text": "TLA+ specifications (Engine / EngineMC / EngineLive / EngineTrace, ClientLifecycle, Backoff, BytePump, Codec / CodecCases, DecoderFraming, EncoderSteps, Validation, AwsBuilder; defect switches that TLC must refute) and property monitors (pure Apply operators) evaluated by TLC over ndjson traces of the real code, and composed with the implementation-shaped specifications in model checking"},
         {"name": "harness", "path": "/verif/harness", "serves_properties": sorted(CLAIMED), "kind_free_text": "Rust scenario runner: reference MQTT codec, reference broker, scripted/faithful drivers, regression scripts"},
     ],
     "checks": checks,
